@@ -6,6 +6,7 @@ spec/gen/DatasetStoreGen.tla.  Values: token k (the k-th assigned value) is buil
 tokens of one history are pairwise different under dsvalues.equal so that a value read back identifies its token."""
 from __future__ import annotations
 
+import hashlib
 import os
 import random
 import shutil
@@ -49,6 +50,7 @@ class Runner:
         self.issued = 0
         self.notes = []           # readable details of unrecognised values
         self.fidelity = {}
+        self.last, self.reused, self.read = {}, 0, 0
 
     def path(self, p):
         return str(self.dir / f"p{p}.h5")
@@ -140,18 +142,34 @@ class Runner:
         except Exception:  # pragma: no cover
             return False
 
+    def _image(self, o):
+        return hashlib.blake2b(o.bind.file.id.get_file_image(), digest_size=12).digest()
+
     def observe(self, e):
+        """Everything readable after call `e`.  A place that did not take part in the call and whose storage bytes
+        (HDF5 file image) are unchanged since it was last read is not read again: its last observation is reused."""
         from pennylane.data import Dataset
+        part_d, part_p = {e["d"], e["s"]}, e["p"]
         dsl, held = [], set()
         for d in range(1, self.nD + 1):
             o = self.slot[d]
             if o is None:
-                dsl.append(["none", 0, 0, 0])
+                dsl.append(["none", 0, False, 0, 0])
             elif not self.is_open(d):
-                dsl.append(["closed", 0, 0, 0])
+                dsl.append(["closed", 0, False, 0, 0])
             else:
                 if self.bound[d]:
                     held.add(self.bound[d])
+                try:
+                    fp = (id(o), self._image(o))
+                except Exception:  # pragma: no cover
+                    fp = None
+                old = self.last.get(("d", d))
+                if d not in part_d and fp is not None and old is not None and old[0] == fp:
+                    self.reused += 1
+                    dsl.append(["open", old[1], False, 0, old[2]])
+                    continue
+                self.read += 1
                 c, extra = self.contents(o, f"slot{d}")
                 f = 0
                 # calls that write into the storage of an existing handle: also look through a fresh wrapper
@@ -162,7 +180,13 @@ class Runner:
                             f = 0
                     except Exception:  # pragma: no cover
                         f = 0
-                dsl.append(["open", c, f, extra])
+                if fp is not None:
+                    try:
+                        fp = (id(o), self._image(o))
+                        self.last[("d", d)] = (fp, c, extra)
+                    except Exception:  # pragma: no cover
+                        self.last.pop(("d", d), None)
+                dsl.append(["open", c, f != 0, f, extra])
         fl = []
         for p in range(1, self.nP + 1):
             ex = os.path.exists(self.path(p))
@@ -172,9 +196,22 @@ class Runner:
                 fl.append([True, True, 0, 0])
             else:
                 try:
+                    with open(self.path(p), "rb") as fh:
+                        fp = hashlib.blake2b(fh.read(), digest_size=12).digest()
+                except Exception:  # pragma: no cover
+                    fp = None
+                old = self.last.get(("p", p))
+                if p != part_p and fp is not None and old is not None and old[0] == fp:
+                    self.reused += 1
+                    fl.append([True, False, old[1], old[2]])
+                    continue
+                self.read += 1
+                try:
                     cp = Dataset.open(self.path(p), "copy")
                     c, extra = self.contents(cp, f"file{p}")
                     cp.close()
+                    if fp is not None:
+                        self.last[("p", p)] = (fp, c, extra)
                 except Exception as ex2:
                     if len(self.notes) < 4:
                         self.notes.append(f"file{p}: cannot be opened for reading: {type(ex2).__name__}: {str(ex2)[:120]}")
@@ -185,7 +222,8 @@ class Runner:
     def run(self):
         trace = []
         try:
-            for e in self.job["hist"]:
+            first = self.job.get("obs_from", 0)
+            for i, e in enumerate(self.job["hist"]):
                 exc = ""
                 try:
                     self.call(e)
@@ -194,7 +232,8 @@ class Runner:
                     if len(self.notes) < 4 and not e.get("err"):
                         self.notes.append(f"{e['act']} raised {exc}: {str(ex)[:160]}")
                 ev = {k: e[k] for k in ("act", "d", "s", "p", "a", "x", "mode", "all", "attrs", "ow", "v")}
-                trace.append({"e": ev, "exc": exc, "obs": self.observe(e)})
+                chk = i >= first
+                trace.append({"e": ev, "exc": exc, "chk": chk, "obs": self.observe(e) if chk else {"ds": [], "files": []}})
         finally:
             for d in self.slot:
                 try:
@@ -211,7 +250,7 @@ def run_job(args):
     job, root, nD, nP = args
     r = Runner(job, Path(root), nD, nP)
     trace = r.run()
-    return {"id": job["id"], "trace": trace, "notes": r.notes, "fidelity": r.fidelity, "values": r.valnames}
+    return {"id": job["id"], "trace": trace, "notes": r.notes, "fidelity": r.fidelity, "values": r.valnames, "reused": r.reused, "read": r.read}
 
 
 def run_chunk(args):
